@@ -57,12 +57,13 @@ class C01(Prop):
             ev = dg.gen_event(rng)
             if not ev['types']:
                 continue
-            nm = rng.randint(1, 12)
+            nm = rng.choice(list(range(1, 13)) + [6, 6, 3])
             mts = [unit6(rng) for _ in range(nm)]
+            probe = rng.choice(['perm_stations', 'batch', 'perm_samples', 'dup_weight', 'filter', 'drop_type', 'loc_order'])
+            if nm == 6 and rng.random() < 0.7:
+                probe = 'batch'           # six tensors of six components: the square batch is where an orientation test by shape goes wrong
             yield {'kind': 'forward', 'event': ev, 'mts': mts, 'marginalise': rng.random() < 0.75,
-                   'return_zero': rng.random() < 0.4,
-                   'probe': rng.choice(['perm_stations', 'batch', 'perm_samples', 'dup_weight', 'filter', 'drop_type', 'loc_order']),
-                   'probe_seed': rng.randrange(1 << 30)}
+                   'return_zero': rng.random() < 0.4, 'probe': probe, 'probe_seed': rng.randrange(1 << 30)}
         # many stations, every one moderately unlikely (two sigma against the first tensor): the joint value lies far below
         # ln(1e-308) although no station has probability zero; values are compared strictly
         for i in range(4 if tier == 'quick' else 40):
